@@ -161,6 +161,53 @@ def tcp(nbystanders):
     return body
 
 
+def tcp_broken_writer_stays():
+    """A peer whose writes fail but which stays connected (its reader never
+    ends) must not cost any other connection a single message, wherever it sits
+    in the registration order."""
+    def body(d: Draw):
+        loop, va = vloop.install_for_mode()
+        never_future_support(va, loop)
+        from indi.transport.server.tcp import ConnectionHandler
+        from indi.routing.router import Router
+        from indi.routing import Device
+        ConnectionHandler.connections = []
+        router = Router()
+
+        class Dev(Device):
+            def accepts(self, device):
+                return device in (None, "DEV")
+
+            def message_from_client(self, message):
+                pass
+        dev = Dev()
+        router.register_device(dev)
+        hf = ConnectionHandler.handler(router)
+        pos = d.int(0, 2, "position-of-the-broken-peer")
+        fail_at = d.int(0, 1, "failing-write")
+        writers = []
+        for i in range(3):
+            w = FakeWriter(va, f"c{i}", fail_at=(fail_at if i == pos else None))
+            loop.create_task(hf(FakeReader(va, [], delay=10_000), w))
+            writers.append(w)
+        msgs = [make_message("SetTextVector", "DEV", f"v{k}") for k in range(4)]
+        for k, m in enumerate(msgs):
+            loop.call_at(5 + 3 * k, router.process_message, m, dev)
+        try:
+            loop.run_until_idle(40)
+        except NoProgress:
+            return verdict(False, "the loop never becomes idle")
+        for i, w in enumerate(writers):
+            if i == pos:
+                continue
+            data = b"".join(w.chunks)
+            for m in msgs:
+                if m.to_string() not in data:
+                    return verdict(False, "a healthy connection lost a message because a peer's writes fail")
+        return verdict(True)
+    return body
+
+
 def tty():
     def body(d: Draw):
         loop, va = vloop.install_for_mode()
@@ -220,6 +267,8 @@ def conditions(tier):
     out.append(Condition("tcp", make_condition(tcp(n), 0, 2, 0),
                          about="TCP handler: every fault kind at every step of the session, bystander(s) keep being served",
                          encodes=ENC, timeout=1800))
+    out.append(Condition("tcp-broken-writer-stays", make_condition(tcp_broken_writer_stays(), 0, 2, 0),
+                         about="a connected peer whose writes fail, at every position of the registration order", encodes=ENC, timeout=900))
     out.append(Condition("tty", make_condition(tty(), 0, 2, 0),
                          about="TTY handler: every fault kind at every step of the session", encodes=ENC, timeout=1800))
     return out
